@@ -21,11 +21,14 @@
 (***************************************************************************)
 EXTENDS Naturals, Sequences, FiniteSets, TLC
 
-PluginKinds == {"disabled", "unsupported", "ok", "user404", "groups404", "unreachable", "badjson"}
+\* "okB": the service vouches for the user with ANOTHER group list (its answer changed since an earlier request)
+PluginKinds == {"disabled", "unsupported", "ok", "okB", "user404", "groups404", "unreachable", "badjson"}
+VouchKinds == {"ok", "okB"}
 EnabledKinds == PluginKinds \ {"disabled", "unsupported"}
 
 NoGroups == <<"-nogroups-">>
 GroupsOf(k) == <<"grp", k>>              \* the group list plugin number k returns
+GroupsOfKind(k, kind) == IF kind = "okB" THEN <<"other", k>> ELSE GroupsOf(k)
 CN == "alice"
 
 --------------------------------------------------------------------------
@@ -40,8 +43,8 @@ PluginLoop(cfg, k, enabled) ==
          IF p \in {"disabled", "unsupported"} THEN PluginLoop(cfg, k + 1, enabled)
          ELSE \* an enabled SLUGS block: the user id comes from the certificate (exactly one CN),
               \* then the user and group lookups
-              IF cfg.cert = "cn1" /\ p = "ok"
-              THEN [found |-> TRUE, enabled |-> TRUE, groups |-> GroupsOf(k)]
+              IF cfg.cert = "cn1" /\ p \in VouchKinds
+              THEN [found |-> TRUE, enabled |-> TRUE, groups |-> GroupsOfKind(k, p)]
               ELSE PluginLoop(cfg, k + 1, TRUE)
 
 Outcome(called, user, groups, reason, parsed) ==
@@ -60,7 +63,7 @@ SessionOutcome(cfg) ==
 (* the property *)
 
 EnabledIdx(cfg) == {k \in DOMAIN cfg.plugins : cfg.plugins[k] \in EnabledKinds}
-Vouching(cfg) == {k \in DOMAIN cfg.plugins : cfg.plugins[k] = "ok"}
+Vouching(cfg) == {k \in DOMAIN cfg.plugins : cfg.plugins[k] \in VouchKinds}
 
 Established(cfg) ==
     /\ cfg.cert # "absent"
@@ -70,7 +73,8 @@ Established(cfg) ==
 
 EstablishedGroups(cfg) ==
     IF EnabledIdx(cfg) = {} THEN NoGroups
-    ELSE GroupsOf(CHOOSE k \in Vouching(cfg) : \A j \in Vouching(cfg) : k <= j)    \* first success wins
+    ELSE LET k == CHOOSE x \in Vouching(cfg) : \A j \in Vouching(cfg) : x <= j IN     \* first success wins
+         GroupsOfKind(k, cfg.plugins[k])
 
 \* o = [called, user, groups, reason] - modelled or observed
 C17_entry(cfg, o) == o.called => (Established(cfg) /\ cfg.req = "valid" /\ o.user = CN /\ o.groups = EstablishedGroups(cfg))
